@@ -174,9 +174,9 @@ theorem optUnary_atom {a : PExp} {tk : Tok} (h : Atom a tk) (rest : List Tok) :
     have : n ≠ "not" := by intro e; subst e; exact absurd hk (by decide)
     simp [optUnary, unRule_word this]
 
-theorem atoms_int (f : Nat) (s : String) (r : List Tok) (acc : List PExp) (t : PExp) (h : intLeaf s = some t) :
-    atoms (f+1) (.int s :: r) acc = atoms f r (acc ++ [t]) := by
-  simp [atoms, h]
+theorem atoms_int (f : Nat) (s : String) (r : List Tok) (acc : List PExp) :
+    atoms (f+1) (.int s :: r) acc = atoms f r (acc ++ [.int (digitsToNat s.toList)]) := by
+  simp [atoms, intLeaf]
 theorem atoms_float (f : Nat) (s : String) (r : List Tok) (acc : List PExp) :
     atoms (f+1) (.float s :: r) acc = atoms f r (acc ++ [.num s]) := by
   simp [atoms]
@@ -214,7 +214,7 @@ theorem leaf_atom {a : PExp} {tk : Tok} (h : Atom a tk) {rest : List Tok} (hf : 
   | int s hs =>
     rw [leaf_int]
     apply imul_single _ _ _ _ _ (optVariable_follow hf)
-    rw [atoms_int (f+1) s rest [] (.int (digitsToNat s.toList)) (by simp [intLeaf, hs])]
+    rw [atoms_int (f+1) s rest []]
     exact atoms_follow hf f _
   | num s =>
     rw [leaf_float]
@@ -529,7 +529,7 @@ theorem juxt_main {es : List PExp} {ts : List Tok} : Juxt es ts →
     intro tail acc hst f hf hf1
     have hf' : 6 * ts.length + 2 ≤ f := by simp at hf; omega
     obtain ⟨f', rfl⟩ : ∃ f', f = f' + 1 := ⟨f - 1, by omega⟩
-    rw [List.cons_append, atoms_int f' s _ acc (.int (digitsToNat s.toList)) (by simp [intLeaf, hs])]
+    rw [List.cons_append, atoms_int f' s _ acc]
     rw [ih tail _ hst f' (by omega) (by omega)]
     simp
   | @Juxt.num s es ts hj => by
@@ -578,11 +578,62 @@ theorem args_main {es : List PExp} {ats : List Tok} : Args es ats → es ≠ [] 
     simp
 end
 
+theorem validInts_mulAll (rest : List PExp) : ∀ a : PExp, validInts a = true → validIntsList rest = true →
+    validInts (mulAll a rest) = true := by
+  induction rest with
+  | nil => intro a ha _; simpa [mulAll] using ha
+  | cons e es ih =>
+    intro a ha hr
+    simp only [validIntsList, Bool.and_eq_true] at hr
+    simp only [mulAll, List.foldl_cons]
+    exact ih _ (by simp [validInts, ha, hr.1]) hr.2
+
+theorem validIntsList_append (xs ys : List PExp) :
+    validIntsList (xs ++ ys) = (validIntsList xs && validIntsList ys) := by
+  induction xs with
+  | nil => simp [validIntsList]
+  | cons x xs ih => simp [validIntsList, ih, Bool.and_assoc]
+
+mutual
+/-- a rendering only carries integer literals that fit `i64`: the AST-building phase accepts the tree -/
+theorem tk_valid {t : PExp} {ts : List Tok} {items : List Item} : Tk t ts items → validInts t = true
+  | .atom ha => by
+    cases ha with
+    | int s hs => simpa [validInts] using hs
+    | num s => simp [validInts]
+    | tt => simp [validInts]
+    | ff => simp [validInts]
+    | var n _ => simp [validInts]
+  | .paren h => tk_valid h
+  | .un h _ => by have := tk_valid h; simpa [validInts] using this
+  | .bin hl hr _ _ _ => by have h1 := tk_valid hl; have h2 := tk_valid hr; simp [validInts, h1, h2]
+  | @Tk.imul a as vs ts vts hj hv _ => by
+    have h1 := juxt_valid hj
+    simp only [validIntsList, Bool.and_eq_true] at h1
+    apply validInts_mulAll _ _ h1.1
+    rw [validIntsList_append, h1.2]
+    cases hv <;> simp [validIntsList, validInts]
+  | .call _ _ ha => by have := args_valid ha; simpa [validInts] using this
+theorem juxt_valid {es : List PExp} {ts : List Tok} : Juxt es ts → validIntsList es = true
+  | .nil => by simp [validIntsList]
+  | .int hs hj => by have := juxt_valid hj; simp [validIntsList, validInts, hs, this]
+  | .num hj => by have := juxt_valid hj; simp [validIntsList, validInts, this]
+  | .paren hin hj => by have h1 := tk_valid hin; have h2 := juxt_valid hj; simp [validIntsList, h1, h2]
+theorem args_valid {es : List PExp} {ts : List Tok} : Args es ts → validIntsList es = true
+  | .nil => by simp [validIntsList]
+  | .one h => by have := tk_valid h; simp [validIntsList, this]
+  | .cons h hr => by have h1 := tk_valid h; have h2 := args_valid hr; simp only [validIntsList] at h2 ⊢; simp [h1, h2]
+end
+
+/-- **General round trip**, PEG phase -/
+theorem parseRaw_tk {t : PExp} {ts : List Tok} {items : List Item} (h : Tk t ts items) : parseToksRaw ts = .ok t := by
+  have := parseExp_of_main (tk_main h).1 h.toIR (rest := []) (Or.inl rfl) (parseFuel ts) (by simp [parseFuel])
+  simp [parseToksRaw, List.append_nil] at this ⊢
+  simp [this]
+
 /-- **General round trip**: any token rendering with a superset of the needed parentheses, any spelling of
 the operators, implicit products and calls, parses to the tree it renders. -/
 theorem parse_tk {t : PExp} {ts : List Tok} {items : List Item} (h : Tk t ts items) : parseToks ts = .ok t := by
-  have := parseExp_of_main (tk_main h).1 h.toIR (rest := []) (Or.inl rfl) (parseFuel ts) (by simp [parseFuel])
-  simp [parseToks, List.append_nil] at this ⊢
-  simp [this]
+  simp [parseToks, parseRaw_tk h, tk_valid h]
 
 end Rooc.Syntax.Proofs
